@@ -2,7 +2,7 @@
 From Coq Require Import Lia ZifyBool.
 From Model Require Import Base Utf8 Ser.
 From Proofs Require Import Tac BytesP Utf8P.
-From Proofs Require Import SerP.
+From Proofs Require Import SerP SerNormP.
 Open Scope Z_scope.
 
 (* k values read one after another from one stream (k calls of deserialize_value / loadb) *)
@@ -80,6 +80,23 @@ Section C13.
         cbn [sbind fst snd]. rewrite IH by (intros y Hy; apply Hf; right; exact Hy).
         reflexivity.
   Qed.
+
+  (* without the premise on norm: keys are scalars / enum members of scalars at one enum depth *)
+  Theorem C13_roundtrip_total_proof : forall v,
+    wf fc reg v -> keys_ok v ->
+    exists bs nv, encv v = SOk bs /\ norm fc v = SOk nv /\
+      forall fuel rest, (need v <= fuel)%nat -> decode fc pk reg fuel (bs ++ rest) = SOk (nv, rest).
+  Proof.
+    intros v Hwf Hk. destruct (norm_total fc reg v Hwf Hk) as [nv Hn].
+    destruct (C13_roundtrip_proof v nv Hwf Hn) as [bs [E R]]. exists bs, nv. auto.
+  Qed.
+
+  (* the value itself comes back: no tuples, float32 floats, pairwise different hashable keys *)
+  Theorem C13_roundtrip_exact_proof : forall v,
+    wf fc reg v -> exact fc v ->
+    exists bs, encv v = SOk bs /\
+      forall fuel rest, (need v <= fuel)%nat -> decode fc pk reg fuel (bs ++ rest) = SOk (v, rest).
+  Proof. intros v Hwf He. apply C13_roundtrip_proof; [exact Hwf | apply norm_exact; exact He]. Qed.
   End RoundTrip.
 
   (* ---------- the encoder accepts exactly its domain *)
